@@ -55,6 +55,7 @@ type Decoder struct {
 	typList    []string
 	refList    []reflect.Value
 	clsDefList []ClassDef
+	skipping   int // > 0 while the value of a wire field unknown to the Go type is read and dropped
 }
 
 //NewDecoder new
@@ -77,6 +78,7 @@ func (d *Decoder) Reset(r ByteRuneReader) {
 	d.typList = make([]string, 0, 11)
 	d.clsDefList = make([]ClassDef, 0, 11)
 	d.refList = make([]reflect.Value, 0, 11)
+	d.skipping = 0
 }
 
 //RegisterType register key/value type
@@ -116,6 +118,7 @@ func (d *Decoder) ReadObject() (object interface{}, err error) {
 	defer func() {
 		if r := recover(); r != nil {
 			object, err = nil, newCodecError("ReadObject", "input does not match the registered types: %v", r)
+			d.skipping = 0
 		}
 	}()
 	return EnsureInterface(d.ReadData())
